@@ -138,9 +138,11 @@ class Printer:
         path_style: str = "short",  # 'short' | 'long' | 'random'
         indent: int = 4,
         first_line_proto: bool = False,
+        typedef: float = 0.12,  # probability that an alias is written in the deprecated `typedef T Name` spelling (only with an rng)
         abs_root: Optional[str] = None,  # directory the schema is written to: files with abs_imports write absolute import paths
     ):
         self.abs_root = abs_root
+        self.typedef = typedef
         self.f = f
         self.rng = rng
         self.semi = semi
@@ -287,7 +289,8 @@ class Printer:
         if a.comment:
             self._line(depth, "// " + a.comment)
         tt = self.type_text(a.type)
-        if a.typedef_syntax:
+        as_typedef = a.typedef_syntax or (self.rng is not None and self.typedef > 0 and self.rng.random() < self.typedef)
+        if as_typedef:
             ln = self._line(depth, f"typedef {tt} {a.name}{self._semi()}")
             self._mark(a, ln, a.name, self.indent * depth + 8 + len(tt))
         else:
@@ -296,7 +299,7 @@ class Printer:
         # references inside the aliased type
         line = self.lines[ln - 1]
         t = a.type
-        tstart = line.index(tt, (self.indent * depth + 8) if a.typedef_syntax else line.index("=")) + 1
+        tstart = line.index(tt, (self.indent * depth + 8) if as_typedef else line.index("=")) + 1
         el = t.elem if isinstance(t, Arr) else t
         if isinstance(el, Ref) and el.forced_path is None:
             self.refs.append((ln, tstart, self.path_for(el.target, again=True), el.target))
